@@ -156,9 +156,15 @@ func c19Run(j c19Job) (res c19Res) {
 	}
 	for _, form := range []string{"single", "middle-of-three"} {
 		ref := map[bool][]string{}
-		for _, build := range []string{"plain", "alloc", "mixed"} {
+		for _, build := range []string{"plain", "alloc", "mixed", "arena", "all-first"} {
+			if form == "single" && build == "all-first" {
+				continue // the same calls as "alloc" for a single entry
+			}
 			for ci, cfg := range cfgs {
 				b := &BatchSpec{}
+				if build == "arena" || build == "all-first" {
+					b.AllocStyle = build
+				}
 				mk := func(key, val string, idx int) Op {
 					o := Op{Kind: 'S', Key: key, Val: val}
 					o.Alloc = build == "alloc" || (build == "mixed" && idx%2 == 1)
@@ -194,7 +200,7 @@ func c19Run(j c19Job) (res c19Res) {
 			}
 		}
 	}
-	res.Sample = fmt.Sprintf("key %s, value %s: single and middle-of-three, plain/alloc/mixed builds, %d option combinations, 11 pipeline stages each", short(k), short(v), len(cfgs))
+	res.Sample = fmt.Sprintf("key %s, value %s: single and middle-of-three, plain / alloc / mixed / arena / all-first builds, %d option combinations, 11 pipeline stages each", short(k), short(v), len(cfgs))
 	return
 }
 
@@ -473,7 +479,7 @@ func checkC19(prop, tier string) int {
 			"traces_validated_against_impl": tot.Runs,
 			"evaluations":                   tot.Runs,
 			"distinct_nontrivial":           len(sigma)*len(sigma) - 1,
-			"rule":                          "every (key, value) pair of the byte-string alphabet (empty, 0x00, 0xff, store magic look-alikes with plausible and absurd length fields, 4095/4096/4097-byte strings) as a single-entry batch and as the middle entry of a three-entry batch, built plain / Alloc* / mixed, under DeferredSort+CachePersisted off/on, through 8 fixed pipeline stages (memory, merger, persist, reopen, appended batch, reopen, full compaction, reopen) with a model comparison after each; oversize entries at exactly 2^24 / 2^28 bytes are rejected; eight keys of very uneven length with a key index that ends early; a burst of three batches before one merger cycle (first one large, descending insertion order, with a child collection) under DeferredSort / CachePersisted on and off; states = pipeline stages compared; distinct_nontrivial = distinct non-trivial (key,value) pairs",
+			"rule":                          "every (key, value) pair of the byte-string alphabet (empty, 0x00, 0xff, store magic look-alikes with plausible and absurd length fields, 4095/4096/4097-byte strings) as a single-entry batch and as the middle entry of a three-entry batch, built plain / Alloc* / mixed / Alloc* from one arena allocation / all Alloc calls before the first Alloc* call, under DeferredSort+CachePersisted off/on, through 8 fixed pipeline stages (memory, merger, persist, reopen, appended batch, reopen, full compaction, reopen) with a model comparison after each; oversize entries at exactly 2^24 / 2^28 bytes are rejected; eight keys of very uneven length with a key index that ends early; a burst of three batches before one merger cycle (first one large, descending insertion order, with a child collection) under DeferredSort / CachePersisted on and off; states = pipeline stages compared; distinct_nontrivial = distinct non-trivial (key,value) pairs",
 			"samples":                       samples,
 			"exhaustive":                    infra == 0,
 			"alphabet_size":                 len(sigma),
